@@ -8,7 +8,8 @@ RULE = ("random operation histories (length 3-14, up to 4 live objects) over the
         "(indexing, arithmetic, reorder/rename/sort/sort_dims, reductions, new_dim/concatenate/squeeze/split, "
         "unfold+fold, NumPy ufuncs/reductions with name/positional/None axis, concat), 1-4-D objects with pairwise "
         "distinct extents including 1; plus every single op on every 3-D naming order; non-trivial = the history "
-        "contains >=3 ops on an object with >=2 dims; distinct by canonical stream")
+        "contains >=3 ops on an object with >=2 dims; distinct by canonical stream; plus the importers: every shipped sample, "
+        "synthetic files of the nine vendor kits, and HDF5 files with non-alphabetical dimension names")
 
 
 def streams(tier, seed):
@@ -33,4 +34,76 @@ def streams(tier, seed):
 
 P = StreamProperty("C01", [ConsistencyOracle], streams, RULE, ("C01",),
                    lambda ops: len(ops) >= 4 and any(len(o.get("dims", [])) >= 2 for o in ops if o["op"] == "new"))
-run, replay = P.run, P.replay
+replay = P.replay
+
+
+def importer_consistency(tier, seed):
+    """'… or file importer': every importer on well-formed files — shipped samples, synthetic files of the nine vendor kits
+    (bytes from the Lean encoder), and HDF5 files written by save (dimension names in non-alphabetical order, pairwise
+    distinct extents)"""
+    import tempfile, shutil, os, warnings, io, contextlib
+    import numpy as np
+    from common import dnp, consistent, REPO
+    from iocheck import make_case, encode_all, KITS, do_import
+    from props.C06 import SHIPPED
+    rng = random.Random(seed * 7919 + 101)
+    fails, n_eval = [], 0
+    work = tempfile.mkdtemp(prefix="verif_c01_")
+    try:
+        cases = [make_case(kit, rng) for kit in KITS.values() for _ in range(2 if tier == "quick" else 10)]
+        encode_all(cases)
+        for c in cases:
+            if c.get("model_outcome") != "ok":
+                continue
+            kit = KITS[c["kit"]]
+            path = kit.write(c["cfg"], tempfile.mkdtemp(dir=work), c["bytes"])
+            d, err, winc = do_import(kit, path)
+            n_eval += 1
+            if err is None and (winc or not consistent(d)):
+                key = "C01:importer-inconsistent:" + c["kit"]
+                fails.append({"key": key, "clause": key, "ops": [{"kit": c["kit"], "cfg": c["cfg"]}]})
+        for fmt, rel in SHIPPED:
+            p = os.path.join(REPO, "data", rel)
+            if not os.path.exists(p) or (os.path.isfile(p) and os.path.getsize(p) == 0):
+                continue
+            with warnings.catch_warnings(record=True) as ws, contextlib.redirect_stdout(io.StringIO()):
+                warnings.simplefilter("always")
+                try:
+                    d = dnp.load(p, data_format=fmt)
+                except Exception:  # noqa: BLE001
+                    continue
+                n_eval += 1
+                if not consistent(d) or any("not consistent" in str(w.message) for w in ws):
+                    key = "C01:importer-inconsistent:shipped:" + rel
+                    fails.append({"key": key, "clause": key, "ops": [{"path": rel}]})
+        names = [["t2", "Average"], ["y", "x"], ["t2", "t1", "B0"], ["zeta", "alpha", "mu", "beta"], ["f2"]]
+        for dims in names:
+            shape = [3, 7, 2, 5][: len(dims)]
+            d0 = dnp.DNPData(np.arange(float(np.prod(shape))).reshape(shape), list(dims), [np.arange(float(k)) + 0.5 for k in shape])
+            p = os.path.join(work, "c01_%d.h5" % len(dims) + dims[0] + ".h5")
+            with warnings.catch_warnings(record=True) as ws, contextlib.redirect_stdout(io.StringIO()):
+                warnings.simplefilter("always")
+                try:
+                    dnp.save(d0, p, overwrite=True)
+                    d = dnp.load(p)
+                except Exception:  # noqa: BLE001
+                    continue
+                n_eval += 1
+                if not consistent(d) or any("not consistent" in str(w.message) for w in ws):
+                    key = "C01:importer-inconsistent:h5"
+                    fails.append({"key": key, "clause": key, "ops": [{"dims": dims, "shape": shape}]})
+    finally:
+        shutil.rmtree(work, ignore_errors=True)
+    return fails, n_eval
+
+
+def run(tier, seed, escalate=False):
+    res = P.run(tier, seed, escalate)
+    fails, n_eval = importer_consistency("thorough" if escalate else tier, seed)
+    seen = {f["key"] for f in res["impl_failures"]}
+    for f in fails:
+        if f["key"] not in seen:
+            seen.add(f["key"]); res["impl_failures"].append(f)
+    res["evaluations"] += n_eval
+    res["distribution"]["importer_files"] = n_eval
+    return res
